@@ -6,6 +6,14 @@
 //   trace <lzma1|lzma2|micro> key=value ... dump=<prefix>
 //                               (needs hook H2) raw encoder with the symbol-trace callback; writes <prefix>.in/.out/.trace[/.pd]
 //                               and also round-trips through the C decoder; result "ok in=<N> out=<M> nsym=<S>[ consumed=<K>]"
+//   reuse <api1> <api2> key=value ...   ENCODER (and decoder) handle reuse: stream 1 is encoded through <api1> with its
+//                               output handed out in pieces of oslice= bytes (0 = huge), then the SAME lzma_stream is
+//                               re-initialised (no lzma_end) for <api2> and stream 2 (gen2=, keys prefixed "2." override the
+//                               options, oslice2=) is encoded; both outputs are decoded (one decoder handle, re-initialised
+//                               as well) and compared: "ok in=<N1>+<N2> out=<M1>+<M2>". apis: alone raw stream easy mt
+//   rt blockbuf|blockuncomp ...  lzma_block_buffer_encode / lzma_block_uncomp_encode: the Block Header's Compressed Size and
+//                               lzma_block_unpadded_size() must equal the bytes really written; decoded by
+//                               lzma_block_header_decode + lzma_block_buffer_decode
 //   caps                        "caps h1=<0|1> h2=<0|1>"
 //   rc <ops>                    the real range encoder on an operation string (see c01_rc.c) -> hex bytes
 //   rcdummy <ops> <pending> <limit>   real rc_encode_dummy after encoding <ops> with <pending> queued -> "<0|1> <out_total>"
@@ -213,7 +221,7 @@ typedef struct {
 	bool has_preset; uint32_t preset;
 	bool has[8]; uint32_t val[8];          // dict lc lp pb mode nice mf depth
 	lzma_check check;
-	uint64_t slice, flush, bias;
+	uint64_t slice, flush, bias, oslice;
 	uint64_t limit;
 	uint32_t threads, timeout; uint64_t block;
 	int eopm;                               // -1 = plain LZMA_FILTER_LZMA1, 0/1 = LZMA1EXT without/with end marker
@@ -275,6 +283,7 @@ static bool cfg_parse(cfg_t *c, hp_line *l)
 		else if (strcmp(k, "slice") == 0) c->slice = hp_u64(v);
 		else if (strcmp(k, "flush") == 0) c->flush = hp_u64(v);
 		else if (strcmp(k, "bias") == 0) c->bias = hp_u64(v);
+		else if (strcmp(k, "oslice") == 0) c->oslice = hp_u64(v);
 		else if (strcmp(k, "limit") == 0) c->limit = hp_u64(v);
 		else if (strcmp(k, "threads") == 0) c->threads = (uint32_t)hp_u64(v);
 		else if (strcmp(k, "timeout") == 0) c->timeout = (uint32_t)hp_u64(v);
@@ -792,6 +801,214 @@ static void rt_micro(cfg_t *c)
 }
 
 // ---------------------------------------------------------------------------------------------------------------
+// single Blocks: lzma_block_buffer_encode / lzma_block_uncomp_encode
+// ---------------------------------------------------------------------------------------------------------------
+
+static void rt_block(cfg_t *c, bool uncomp)
+{
+	if (!cfg_chain(c)) { printf("bad-op\n"); return; }
+	lzma_block block;
+	memset(&block, 0, sizeof(block));
+	block.version = 0;
+	block.check = c->check;
+	block.filters = c->filters;
+	size_t cap = lzma_block_buffer_bound(c->in_size);
+	if (cap == 0) { printf("rejected ret=0\n"); return; }
+	uint8_t *out = malloc(cap);
+	if (out == NULL) abort();
+	size_t out_pos = 0;
+	set_bias(c);
+	lzma_ret ret = uncomp ? lzma_block_uncomp_encode(&block, c->in, c->in_size, out, &out_pos, cap)
+			: lzma_block_buffer_encode(&block, NULL, c->in, c->in_size, out, &out_pos, cap);
+	clear_bias();
+	if (ret == LZMA_OPTIONS_ERROR) { printf("rejected ret=%d\n", (int)ret); free(out); return; }
+	if (ret != LZMA_OK) { printf("FAIL stage=encode ret=%d bound=%zu\n", (int)ret, cap); free(out); return; }
+	// the sizes the encoder reports (and which go into the Index) must be the real ones
+	const size_t check_size = lzma_check_size(c->check);
+	const lzma_vli unpadded = lzma_block_unpadded_size(&block);
+	const lzma_vli total = lzma_block_total_size(&block);
+	if (block.uncompressed_size != c->in_size || total != out_pos
+			|| unpadded != block.header_size + block.compressed_size + check_size
+			|| block.header_size + block.compressed_size + check_size > out_pos
+			|| out_pos - (block.header_size + block.compressed_size + check_size) > 3) {
+		printf("FAIL stage=block-sizes ret=0 header=%u compressed=%llu check=%zu unpadded=%llu total=%llu written=%zu uncompressed=%llu in=%zu\n",
+				(unsigned)block.header_size, (unsigned long long)block.compressed_size, check_size,
+				(unsigned long long)unpadded, (unsigned long long)total, out_pos,
+				(unsigned long long)block.uncompressed_size, c->in_size);
+		free(out);
+		return;
+	}
+	buf_t enc = { out, out_pos, cap }, dec = { 0 };
+	dump_all(c, &enc);
+	// decode: header first, then the Block
+	lzma_block d;
+	lzma_filter dfilters[LZMA_FILTERS_MAX + 1];
+	memset(&d, 0, sizeof(d));
+	d.version = 0;
+	d.check = c->check;
+	d.filters = dfilters;
+	d.header_size = lzma_block_header_size_decode(out[0]);
+	ret = lzma_block_header_decode(&d, NULL, out);
+	if (ret != LZMA_OK) { printf("FAIL stage=decode-header ret=%d\n", (int)ret); free(out); return; }
+	if (d.compressed_size != block.compressed_size || d.uncompressed_size != block.uncompressed_size) {
+		printf("FAIL stage=header-fields ret=0 stored_compressed=%llu real=%llu stored_uncompressed=%llu real=%llu\n",
+				(unsigned long long)d.compressed_size, (unsigned long long)block.compressed_size,
+				(unsigned long long)d.uncompressed_size, (unsigned long long)block.uncompressed_size);
+	} else {
+		dec.p = malloc(c->in_size + 1);
+		dec.cap = c->in_size + 1;
+		size_t in_pos = d.header_size;
+		ret = lzma_block_buffer_decode(&d, NULL, out, &in_pos, out_pos, dec.p, &dec.n, dec.cap);
+		if (ret != LZMA_OK || in_pos != out_pos) printf("FAIL stage=decode ret=%d in_pos=%zu out=%zu\n", (int)ret, in_pos, out_pos);
+		else verdict(c, &enc, &dec, c->in, c->in_size, "");
+	}
+	for (size_t i = 0; i < LZMA_FILTERS_MAX && dfilters[i].id != LZMA_VLI_UNKNOWN; ++i)
+		free(dfilters[i].options);
+	free(out);
+	free(dec.p);
+}
+
+// ---------------------------------------------------------------------------------------------------------------
+// handle reuse: two streams through ONE lzma_stream, the first one finished through a small output window
+// ---------------------------------------------------------------------------------------------------------------
+
+// whole input available, output handed out `ochunk` bytes per call (0 = 1 MiB pieces)
+static lzma_ret drive_fixed(lzma_stream *strm, const uint8_t *in, size_t in_size, buf_t *out, size_t ochunk, size_t *consumed)
+{
+	if (ochunk == 0) ochunk = 1u << 20;
+	strm->next_in = in;
+	strm->avail_in = in_size;
+	for (unsigned long guard = 0; guard < 400000000ul; ++guard) {
+		uint8_t *tmp = malloc(ochunk);
+		if (tmp == NULL) abort();
+		strm->next_out = tmp;
+		strm->avail_out = ochunk;
+		lzma_ret ret = lzma_code(strm, LZMA_FINISH);
+		buf_add(out, tmp, ochunk - strm->avail_out);
+		free(tmp);
+		if (ret != LZMA_OK) {
+			if (consumed) *consumed = in_size - strm->avail_in;
+			return ret;
+		}
+	}
+	return LZMA_PROG_ERROR;
+}
+
+static lzma_ret reuse_enc_init(lzma_stream *strm, cfg_t *c)
+{
+	lzma_ret ret;
+	set_bias(c);
+	if (strcmp(c->api, "alone") == 0) ret = lzma_alone_encoder(strm, &c->lz);
+	else if (strcmp(c->api, "easy") == 0) ret = lzma_easy_encoder(strm, c->has_preset ? c->preset : 6, c->check);
+	else if (!cfg_chain(c)) ret = LZMA_PROG_ERROR;
+	else if (strcmp(c->api, "raw") == 0) ret = lzma_raw_encoder(strm, c->filters);
+	else if (strcmp(c->api, "stream") == 0) ret = lzma_stream_encoder(strm, c->filters, c->check);
+	else if (strcmp(c->api, "mt") == 0) {
+		lzma_mt mt;
+		memset(&mt, 0, sizeof(mt));
+		mt.threads = c->threads ? c->threads : 1;
+		mt.block_size = c->block;
+		mt.timeout = c->timeout;
+		mt.check = c->check;
+		if (c->chain != NULL) mt.filters = c->filters;
+		else mt.preset = c->has_preset ? c->preset : 6;
+		ret = lzma_stream_encoder_mt(strm, &mt);
+	}
+	else ret = LZMA_PROG_ERROR;
+	clear_bias();
+	return ret;
+}
+
+static lzma_ret reuse_dec_init(lzma_stream *strm, cfg_t *c)
+{
+	if (strcmp(c->api, "alone") == 0) return lzma_alone_decoder(strm, UINT64_MAX);
+	if (strcmp(c->api, "raw") == 0) return lzma_raw_decoder(strm, c->filters);
+	return lzma_stream_decoder(strm, UINT64_MAX, 0);
+}
+
+static void do_reuse(hp_line *l)
+{
+	// split the keys: plain keys go to both streams (gen/oslice only to stream 1), "2."-prefixed ones override for stream 2,
+	// gen2=/oslice2= are stream 2's gen=/oslice=
+	if (l->ntok < 4) { printf("bad-op\n"); return; }
+	hp_line l1 = { 0 }, l2 = { 0 };
+	char *own[2 * HP_MAXTOK];
+	int nown = 0;
+	l1.tok[l1.ntok++] = l->tok[0]; l1.tok[l1.ntok++] = l->tok[1];
+	l2.tok[l2.ntok++] = l->tok[0]; l2.tok[l2.ntok++] = l->tok[2];
+	for (int i = 3; i < l->ntok && l1.ntok < HP_MAXTOK && l2.ntok < HP_MAXTOK; ++i) {
+		const char *t = l->tok[i];
+		char *cp;
+		if (strncmp(t, "2.", 2) == 0) { cp = strdup(t + 2); l2.tok[l2.ntok++] = cp; }
+		else if (strncmp(t, "gen2=", 5) == 0) { cp = malloc(strlen(t) + 1); sprintf(cp, "gen=%s", t + 5); l2.tok[l2.ntok++] = cp; }
+		else if (strncmp(t, "oslice2=", 8) == 0) { cp = malloc(strlen(t) + 1); sprintf(cp, "oslice=%s", t + 8); l2.tok[l2.ntok++] = cp; }
+		else if (strncmp(t, "gen=", 4) == 0 || strncmp(t, "oslice=", 7) == 0) { cp = strdup(t); l1.tok[l1.ntok++] = cp; }
+		else { cp = strdup(t); l1.tok[l1.ntok++] = cp; own[nown++] = cp; cp = strdup(t); l2.tok[l2.ntok++] = cp; }
+		own[nown++] = cp;
+	}
+	// a "2." override must win over the shared key: cfg_parse takes the LAST occurrence, and the overrides were appended in
+	// line order, so move them behind the shared keys
+	{
+		char *ov[HP_MAXTOK]; int nov = 0, w = 2;
+		for (int i = 2; i < l2.ntok; ++i) {
+			bool is_ov = false;
+			for (int j = 3; j < l->ntok; ++j)
+				if (strncmp(l->tok[j], "2.", 2) == 0 && strcmp(l->tok[j] + 2, l2.tok[i]) == 0) is_ov = true;
+			if (is_ov) ov[nov++] = l2.tok[i]; else l2.tok[w++] = l2.tok[i];
+		}
+		for (int i = 0; i < nov; ++i) l2.tok[w++] = ov[i];
+	}
+	cfg_t c1, c2;
+	bool ok1 = cfg_parse(&c1, &l1), ok2 = cfg_parse(&c2, &l2);
+	if (!ok1 || !ok2) {
+		printf("bad-op\n");
+		cfg_free(&c1); cfg_free(&c2);
+		for (int i = 0; i < nown; ++i) free(own[i]);
+		return;
+	}
+	buf_t e1 = { 0 }, e2 = { 0 }, d1 = { 0 }, d2 = { 0 };
+	lzma_stream strm = LZMA_STREAM_INIT, dstrm = LZMA_STREAM_INIT;
+	bool good = false;
+	lzma_ret ret = reuse_enc_init(&strm, &c1);
+	if (ret != LZMA_OK) { printf("rejected ret=%d stream=1\n", (int)ret); goto done; }
+	ret = drive_fixed(&strm, c1.in, c1.in_size, &e1, (size_t)c1.oslice, NULL);
+	if (ret != LZMA_STREAM_END) { printf("FAIL stage=encode1 ret=%d out=%zu\n", (int)ret, e1.n); goto done; }
+	// the same handle again, without lzma_end()
+	ret = reuse_enc_init(&strm, &c2);
+	if (ret != LZMA_OK) { printf("rejected ret=%d stream=2\n", (int)ret); goto done; }
+	ret = drive_fixed(&strm, c2.in, c2.in_size, &e2, (size_t)c2.oslice, NULL);
+	if (ret != LZMA_STREAM_END) { printf("FAIL stage=encode2 ret=%d out=%zu\n", (int)ret, e2.n); goto done; }
+	// decode both, also through one handle
+	for (int k = 0; k < 2; ++k) {
+		cfg_t *c = k ? &c2 : &c1;
+		buf_t *e = k ? &e2 : &e1, *d = k ? &d2 : &d1;
+		size_t consumed = 0;
+		ret = reuse_dec_init(&dstrm, c);
+		if (ret != LZMA_OK) { printf("FAIL stage=decoder-init%d ret=%d\n", k + 1, (int)ret); goto done; }
+		ret = drive_fixed(&dstrm, e->p, e->n, d, k ? 0 : (size_t)c1.oslice, &consumed);
+		if (ret != LZMA_STREAM_END || consumed != e->n) {
+			printf("FAIL stage=decode%d ret=%d decoded_len=%zu in=%zu consumed=%zu out=%zu\n", k + 1, (int)ret, d->n, c->in_size, consumed, e->n);
+			goto done;
+		}
+		if (d->n != c->in_size || (d->n && memcmp(d->p, c->in, d->n) != 0)) {
+			size_t pos = 0;
+			while (pos < d->n && pos < c->in_size && d->p[pos] == c->in[pos]) ++pos;
+			printf("FAIL stage=compare%d ret=0 decoded_len=%zu expected_len=%zu pos=%zu out=%zu\n", k + 1, d->n, c->in_size, pos, e->n);
+			goto done;
+		}
+	}
+	good = true;
+	printf("ok in=%zu+%zu out=%zu+%zu\n", c1.in_size, c2.in_size, e1.n, e2.n);
+done:
+	(void)good;
+	lzma_end(&strm);
+	lzma_end(&dstrm);
+	free(e1.p); free(e2.p); free(d1.p); free(d2.p);
+	cfg_free(&c1); cfg_free(&c2);
+	for (int i = 0; i < nown; ++i) free(own[i]);
+}
+
+// ---------------------------------------------------------------------------------------------------------------
 // symbol trace (hook H2)
 // ---------------------------------------------------------------------------------------------------------------
 
@@ -898,6 +1115,7 @@ int main(void)
 			fflush(stdout);
 			continue;
 		}
+		if (strcmp(l.tok[0], "reuse") == 0) { do_reuse(&l); fflush(stdout); continue; }
 		bool is_rt = strcmp(l.tok[0], "rt") == 0, is_trace = strcmp(l.tok[0], "trace") == 0;
 		cfg_t c;
 		if ((!is_rt && !is_trace) || !cfg_parse(&c, &l)) {
@@ -920,6 +1138,8 @@ int main(void)
 		else if (strcmp(c.api, "raw") == 0) rt_raw(&c, false);
 		else if (strcmp(c.api, "rawbuf") == 0) rt_raw(&c, true);
 		else if (strcmp(c.api, "micro") == 0) rt_micro(&c);
+		else if (strcmp(c.api, "blockbuf") == 0) rt_block(&c, false);
+		else if (strcmp(c.api, "blockuncomp") == 0) rt_block(&c, true);
 		else printf("bad-op\n");
 		cfg_free(&c);
 		fflush(stdout);
